@@ -806,6 +806,105 @@ def second_session_case(ctx, workdir: str, transport_kind: str, k: int) -> None:
         ctx.violation(key, what, case)
 
 
+class PacedTransport(ScriptedTransport):
+    """Lines arrive `gap` (virtual) seconds apart, for ever: every line reports a new value."""
+
+    gap = 2.0
+
+    async def read(self) -> str:
+        await asyncio.sleep(self.gap)
+        self.counter = getattr(self, "counter", 0) + 1
+        return f"1;0;1;0;2;report-{self.counter}\n"
+
+
+def traffic_cadence_case(ctx, workdir: str, gap: float) -> None:
+    """The 15-minute cadence while messages keep arriving through listen() every `gap` virtual seconds (a sensor that
+    reports continuously): at 1 850 s the file must hold a value that was reported before 900 s."""
+    from aiomysensors.gateway import Config, Gateway
+    from aiomysensors.model.node import Child, Node
+
+    path = os.path.join(workdir, "paced.json")
+    prepare_file(path, "missing")
+    case = {"engine": "vloop", "traffic_cadence_gap": gap}
+
+    async def scenario() -> dict:
+        transport = PacedTransport()
+        transport.gap = gap
+        gateway = Gateway(transport, Config(persistence_file=path))
+        gateway.protocol_version = "2.2"
+        gateway.nodes[1] = Node(1, 17, "2.2", children={0: Child(0, 3)})
+        problems = []
+        seen: dict[float, str] = {}
+        loop = asyncio.get_running_loop()
+        async with gateway:
+            start = loop.time()
+
+            async def consume() -> None:
+                async for message in gateway.listen():
+                    seen[loop.time() - start] = message.payload
+
+            consumer = asyncio.ensure_future(consume())
+            await asyncio.sleep(2 * SAVE_BOUND + 50)
+            status, disk = registry_on_disk(path)
+            early = [payload for when, payload in seen.items() if when < SAVE_BOUND - 50]
+            on_disk = None
+            if status == "ok":
+                for key, node in disk.items():
+                    text = json.dumps(str(node))
+                    found = [int(x) for x in __import__("re").findall(r"report-(\d+)", text)]
+                    on_disk = max(found) if found else None
+            newest_early = max((int(p.split("-")[1]) for p in early), default=None)
+            if newest_early is None:
+                problems.append(("INCONCLUSIVE", "no traffic was consumed"))
+            elif on_disk is None or on_disk < newest_early:
+                problems.append(("periodic-save-too-late", f"messages every {gap} s through listen(): at {2 * SAVE_BOUND + 50} s the "
+                                                           f"file holds report #{on_disk}, report #{newest_early} was received "
+                                                           f"before {SAVE_BOUND - 50} s"))
+            consumer.cancel()
+            await asyncio.gather(consumer, return_exceptions=True)
+        for t in [t for t in asyncio.all_tasks() if t is not asyncio.current_task()]:
+            t.cancel()
+        return {"problems": problems, "consumed": len(seen)}
+
+    result, _loop = run_virtual(scenario)
+    ctx.case(("traffic-cadence", gap), sample=case)
+    if isinstance(result, LogicalDeadlock):
+        ctx.violation("context-deadlock", f"logical deadlock in {case}", case)
+    elif isinstance(result, BaseException):
+        from ..harness import scenario_exception
+
+        scenario_exception(ctx, result, case, "traffic-cadence")
+    else:
+        ctx.clause("cadence-under-continuous-traffic")
+        ctx.obs("traffic-cadence-lines", result["consumed"])
+        for key, what in result["problems"]:
+            if key == "INCONCLUSIVE":
+                ctx.inconclusive.append(f"traffic cadence case: {what}")
+            else:
+                ctx.violation(key, what, case)
+
+
+def slow_disk_case(ctx, workdir: str, delay: float, k: int, mode: str) -> None:
+    """Every file operation takes `delay` virtual seconds (a slow or sleeping disk, a network share): entry, one change,
+    exit after k loop iterations.  Leaving the context still writes the final registry and raises nothing of its own."""
+    path = os.path.join(workdir, "slowdisk.json")
+    prepare_file(path, "present")
+    params = {"transport": "scripted", "mode": mode, "file": "present", "k": k, "change": "late", "executor_delay": delay}
+    case = {"engine": "vloop", **params}
+    result, loop = run_virtual(lambda: context_scenario(params, path), executor_delay=delay)
+    ctx.case(("slow-disk", delay, k, mode), sample=case)
+    if isinstance(result, LogicalDeadlock):
+        ctx.violation("context-deadlock", f"logical deadlock in {case}", case)
+        return
+    if isinstance(result, BaseException):
+        from ..harness import scenario_exception
+
+        scenario_exception(ctx, result, case, "slow-disk")
+        return
+    ctx.clause("slow-disk-exit")
+    judge_context(ctx, result, path, case)
+
+
 def exact_cadence_case(ctx, workdir: str, periods: int) -> None:
     """'At least every 15 minutes', to the second: on the virtual clock file operations take no time, so a change made one
     second after the n-th save must be on disk 900.5 s after that save - a period of 901 s is already too long."""
@@ -1341,6 +1440,10 @@ def run_case(ctx, case: dict) -> None:
             cancelled_exit_case(ctx, workdir, case["transport"], case["k"], case["cancelled_exit"], case["file"])
         elif "builtin_connect_failure" in case:
             builtin_connect_failure_case(ctx, workdir, case["builtin_connect_failure"])
+        elif "traffic_cadence_gap" in case:
+            traffic_cadence_case(ctx, workdir, case["traffic_cadence_gap"])
+        elif "executor_delay" in case:
+            slow_disk_case(ctx, workdir, case["executor_delay"], case["k"], case["mode"])
         elif "exact_cadence_periods" in case:
             exact_cadence_case(ctx, workdir, case["exact_cadence_periods"])
         elif "changed_file_between_sessions" in case:
@@ -1428,6 +1531,15 @@ def run(ctx) -> None:
                     live_traffic_case(ctx, workdir, n, c, ctx.seed * 100 + i)
             if ctx.shard_index == (3 % ctx.shard_count):
                 exact_cadence_case(ctx, workdir, ctx.pick(4, 40))
+            for i, gap in enumerate((0.5, 2.0, 4.0, 7.0, 30.0)):
+                if ctx.mine(i):
+                    traffic_cadence_case(ctx, workdir, gap)
+            from .. import codedict
+
+            for i, delay in enumerate([d for d in codedict.durations() if d <= 3601]):
+                for k in (0, 3, 40):
+                    if ctx.mine(i + k):
+                        slow_disk_case(ctx, workdir, delay, k, ("normal", "body-raises")[(i + k) % 2])
             hours = ctx.pick(10, 100)
             if ctx.shard_index < 4:
                 cadence_case(ctx, workdir, hours, ctx.seed * 100 + ctx.shard_index)
